@@ -185,9 +185,34 @@ def nondeterminism_sites(index, packages=("a816", "script")):
                 if name in NONDETERMINISM and not (name == "id" and False):
                     if name in ("id", "hash") or True:
                         out.append({"site": f"{modname}:{n.lineno}", "call": ast.unparse(f)})
-            if isinstance(n, ast.For) and isinstance(n.iter, (ast.Set, ast.SetComp)):
-                out.append({"site": f"{modname}:{n.lineno}", "call": "iteration over a set literal"})
+            iters = []
+            if isinstance(n, ast.For):
+                iters.append(n.iter)
+            if isinstance(n, (ast.ListComp, ast.SetComp, ast.DictComp, ast.GeneratorExp)):
+                iters += [g.iter for g in n.generators]
+            for it in iters:
+                # the order of a set's elements follows their hashes; for str / bytes / tuples of them that is the per-process hash seed
+                if isinstance(it, (ast.Set, ast.SetComp)):
+                    out.append({"site": f"{modname}:{n.lineno}", "call": "iteration over a set literal"})
+                elif isinstance(it, ast.Call) and (isinstance(it.func, ast.Name) and it.func.id in ("set", "frozenset")):
+                    out.append({"site": f"{modname}:{n.lineno}", "call": f"iteration over {ast.unparse(it)[:60]} (element order depends on the process's hash seed)"})
+            # process-wide state that outlives an assembly: working directory, environment, import path, recursion limit, PRNG state, locale, signal handlers
+            if isinstance(n, ast.Call):
+                f = n.func
+                name = f.attr if isinstance(f, ast.Attribute) else f.id if isinstance(f, ast.Name) else ""
+                base = ast.unparse(f.value) if isinstance(f, ast.Attribute) else ""
+                if name in PROCESS_GLOBAL_MUTATORS or (base in ("sys.path", "os.environ", "sys.modules", "warnings.filters") and name in ("append", "insert", "extend", "update", "pop", "setdefault", "remove", "clear", "__setitem__")):
+                    out.append({"site": f"{modname}:{n.lineno}", "call": f"{ast.unparse(f)} (process-wide state outlives the assembly)"})
+            if isinstance(n, (ast.Assign, ast.AugAssign, ast.Delete)):
+                targets = n.targets if isinstance(n, (ast.Assign, ast.Delete)) else [n.target]
+                for t in targets:
+                    if isinstance(t, ast.Subscript) and ast.unparse(t.value) in ("os.environ", "sys.modules"):
+                        out.append({"site": f"{modname}:{n.lineno}", "call": f"assignment to {ast.unparse(t.value)}[...]"})
     return out
+
+
+# (logging / warnings configuration is presentation, not part of an assembly's result: not listed)
+PROCESS_GLOBAL_MUTATORS = {"chdir", "fchdir", "putenv", "unsetenv", "setrecursionlimit", "seed", "setlocale", "chroot", "setrlimit"}
 
 
 def call_site_regions(index, sites, packages=("a816", "script")):
